@@ -22,13 +22,10 @@ package control // import "pault.ag/go/debian/control"
 
 import (
 	"bytes"
-	"crypto/sha256"
-	"crypto/sha512"
 	"encoding/hex"
 	"fmt"
 	"hash"
 	"io"
-	"log"
 	"path/filepath"
 	"strconv"
 	"strings"
@@ -93,14 +90,10 @@ func (v *verifier) Close() error {
 //         return err
 //     }
 func (c *FileHash) Verifier() (io.WriteCloser, error) {
-	var h hash.Hash
-	switch c.Algorithm {
-	case "sha256":
-		h = sha256.New()
-	case "sha512":
-		h = sha512.New()
-	default:
-		log.Fatalf("BUG: FileHash.Verifier not updated after release.Indices()")
+	/* every algorithm a FileHash can carry (see FileHashFromHasher) */
+	h, err := hashio.GetHash(c.Algorithm)
+	if err != nil {
+		return nil, err
 	}
 	sum, err := hex.DecodeString(c.Hash)
 	if err != nil {
